@@ -145,14 +145,62 @@ def t_fixed_point_energy(item):
     es(molecule, P0=Pstar, dm_prop="XL-BOMD", xl_bomd_params=xp)
     E = sp.to_np(molecule.Etot)
     ent = sp.to_np(molecule.Electronic_entropy) if torch.is_tensor(molecule.Electronic_entropy) else np.zeros(1)
+    F1 = sp.to_np(molecule.force)
     out = {
         "dE": float(np.abs(E - ref["Etot"]).max()),
-        "dF": float(np.abs(sp.to_np(molecule.force) - ref["force"]).max()),
+        "dF": float(np.abs(F1 - ref["force"]).max()),
         "dq": float(np.abs(sp.to_np(molecule.q) - ref["q"]).max()),
         "dD": float(np.abs(sp.to_np(molecule.dm) - ref["dm"]).max()),
         "ent": float(np.abs(ent).max()),
     }
+    # the same evaluation repeated on the same molecule object must give the same answer (no state carried
+    # from one extended-Lagrangian evaluation into the next, e.g. an accumulated coordinate gradient)
+    rep = 0.0
+    for _ in range(2):
+        es(molecule, P0=Pstar.clone(), dm_prop="XL-BOMD", xl_bomd_params=xp)
+        rep = max(rep, float(np.abs(sp.to_np(molecule.force) - F1).max()), float(np.abs(sp.to_np(molecule.Etot) - E).max()))
+    out["rep"] = rep
     return out
+
+
+def t_xl_batch(item):
+    """the XL/KSA energy functional (energy, electronic entropy, forces, density) of a molecule inside a
+    zero-padded batch equals the same evaluation alone, also at a high electronic temperature"""
+    import torch
+
+    names, method, rank, T_el, seed = item
+    mols = [M.apply(M.get(n), M.generic_rot(seed)) for n in names]
+    p = sp.make_params(method, eps=1e-11)
+    xp = {"k": 5}
+    if rank:
+        xp.update(max_rank=rank, err_threshold=0.0, T_el=T_el)
+
+    def evaluate(ms):
+        molecule, es = sp.build(ms, p)
+        molecule.verbose = False
+        es(molecule)
+        P = molecule.dm.clone()
+        es(molecule, P0=P, dm_prop="XL-BOMD", xl_bomd_params=xp)
+        ent = molecule.Electronic_entropy
+        return {
+            "Etot": sp.to_np(molecule.Etot), "force": sp.to_np(molecule.force), "dm": sp.to_np(molecule.dm),
+            "ent": sp.to_np(ent) if torch.is_tensor(ent) else np.zeros(len(ms)),
+        }  # fmt: skip
+
+    b = evaluate(mols)
+    worst = {"Etot": 0.0, "force": 0.0, "dm": 0.0, "ent": 0.0}
+    entmax = 0.0
+    for i, m in enumerate(mols):
+        a = evaluate([m])
+        n = len(m["species"])
+        no = 4 * n
+        worst["Etot"] = max(worst["Etot"], float(abs(a["Etot"][0] - b["Etot"][i])))
+        worst["ent"] = max(worst["ent"], float(abs(np.ravel(a["ent"])[0] - np.ravel(b["ent"])[i])))
+        worst["force"] = max(worst["force"], float(np.abs(a["force"][0][:n] - b["force"][i][:n]).max()))
+        worst["dm"] = max(worst["dm"], float(np.abs(a["dm"][0][:no, :no] - b["dm"][i][:no, :no]).max()))
+        entmax = max(entmax, float(abs(np.ravel(a["ent"])[0])))
+    worst["entmax"] = entmax
+    return worst
 
 
 # ------------------------------------------------------------------ (d)
@@ -317,8 +365,26 @@ def run(chk, tier, seed):
         chk.case(key, outcome=f"{r['dE']:.1e}")
         chk.traces += 1
         # eps = 1e-11; measured on the healthy tree: dE <= 5e-13, dF <= 1.2e-9, dq <= 1.2e-10, dD <= 6e-11 (>= 80x head-room)
+        if r["rep"] > 1e-10:
+            chk.violation(dict(desc, clause="repeat"), f"{key}: the same XL evaluation repeated on the same molecule differs by {r['rep']:.2e}", replay={"part": "c", "item": list(it)})
         if r["dE"] > 1e-10 or r["dF"] > 1e-7 or r["dq"] > 1e-8 or r["dD"] > 1e-8:
             chk.violation(desc, f"{key}: E_XL(D=P*) vs SCF: dE={r['dE']:.2e} dF={r['dF']:.2e} dq={r['dq']:.2e} dD={r['dD']:.2e} entropy={r['ent']:.2e}", replay={"part": "c", "item": list(it)})
+    # ---- (c') batch transparency of the XL / KSA functional incl. the electronic entropy
+    batches = [["CH4", "H2O"], ["H2O", "CH4"]] if tier == "quick" else [["CH4", "H2O"], ["H2O", "CH4"], ["H2CO", "HF"], ["NH3", "CH3OH", "HF"]]
+    items = [(b, "AM1", rank, T, seed) for b in batches for rank, T in ((0, 0), (2, 1500), (2, 10000), (3, 30000))]
+    res = pmap(t_xl_batch, items, chunk=1, timeout=900, progress="C09c' XL functional in padded batches")
+    for it, r in zip(items, res):
+        key = f"c'|{'+'.join(it[0])}|rank={it[2]}|T_el={it[3]}"
+        desc = {"part": "c'", "batch": "+".join(it[0]), "rank": it[2], "T_el": it[3]}
+        if is_timeout(r) or is_error(r):
+            chk.violation(desc, f"{key}: {r}", replay={"part": "c'", "item": list(it)})
+            continue
+        chk.case(key, outcome=f"{r['entmax']:.2e}")
+        chk.traces += 1
+        # measured on the healthy tree: <= 1e-13 except {CH4,H2O} at T_el = 1e4 K (5.8e-9 eV, 2.6e-9 eV/A, 4.5e-10:
+        # the chemical-potential solve of Fermi_Q stops on a batch-wide criterion); bounds are >= 170x above that
+        if r["Etot"] > 1e-6 or r["ent"] > 1e-6 or r["force"] > 1e-6 or r["dm"] > 1e-7:
+            chk.violation(desc, f"{key}: molecule in a padded batch differs from the same evaluation alone: dE={r['Etot']:.2e} dS_el={r['ent']:.2e} dF={r['force']:.2e} dD={r['dm']:.2e}", replay={"part": "c'", "item": list(it)})
     # ---- (d)
     items = []
     kd = [3, 6, 9] if tier == "quick" else ks
